@@ -116,7 +116,10 @@ def decide_c17(tier, seed):
     if violations:
         for x, pth in zip(violations, paths):
             print("failed obligation: %s" % x["obligation"])
-            print("VIOLATION property=C17 replay=%s no-failing-input-found" % pth)
+            if x.get("witness_ops"):
+                print("VIOLATION property=C17 replay=%s" % pth)
+            else:
+                print("VIOLATION property=C17 replay=%s no-failing-input-found" % pth)
         return 1
     print("C17: %d feature sets extracted, %d distinct variant(s) of the functions under contract" % (cov["evaluations"], cov["distinct_variants"]))
     return 0
@@ -133,7 +136,7 @@ def decide(pid, tier, seed):
     known = load_known()
     notes = []
     quarantined = {}
-    for _round in range(7):
+    for _round in range(9):
         g = P.generate(quarantined=quarantined)
         gi = P.GenIndex(g["gen_text"])
         r = P.run_verus(g["gen_path"], g["gen_text"], label="main")
@@ -145,19 +148,25 @@ def decide(pid, tier, seed):
             f = gi.func_at(t["line"]) if t["line"] else None
             changed_code = f is not None and g["splice"]["functions"].get(f["name"], {}).get("status") in ("transplanted", "quarantined", "uncontracted")
             structural = any(v == "changed" for v in g["splice"]["types"].values()) or bool(g["splice"].get("uncontracted"))
-            if f and f["mode"] == "exec" and not f["external_body"] and (changed_code or structural or "not supported" in t["message"]
-                                                                          or "unsupported" in t["message"].lower()
-                                                                          or "does not yet support" in t["message"]):
+            new_fn = f is not None and any(u == f["name"] or u.endswith("::" + f["name"]) or f["name"].endswith("::" + u.split("::")[-1]) for u in g["splice"].get("uncontracted", []))
+            if f and f["mode"] == "exec" and (not f["external_body"] or changed_code or new_fn) and (
+                    changed_code or new_fn or structural or "not supported" in t["message"]
+                    or "unsupported" in t["message"].lower() or "does not yet support" in t["message"]):
                 # either Verus cannot read a construct of the body, or the body changed so much that
-                # the ghost text no longer fits it (a ghost name is out of scope, a type no longer matches)
+                # the ghost text no longer fits it (a ghost name is out of scope, a type no longer matches),
+                # or the body does not even compile in the extracted world (e.g. it uses an iterator adapter
+                # the extraction has no rule for)
                 bad.add((f["name"], t["line"] < f["body_line"]))
         if not bad or not tools:
             break
         progressed = False
         for name, in_header in bad:
             cur = quarantined.get(name, 0)
-            new_level = 2 if (in_header or cur >= 1) else 1
-            if new_level > cur:
+            if in_header:
+                new_level = {0: 2, 1: 2, 3: 4}.get(cur, cur)
+            else:
+                new_level = {0: 1, 1: 3, 2: 4}.get(cur, cur)
+            if new_level != cur:
                 quarantined[name] = new_level
                 progressed = True
         if not progressed:
@@ -484,6 +493,15 @@ def main(argv):
     if argv[1] == "--replay":
         txt = open(argv[2]).read()
         m = re.search(r"^witness ops: (.*)$", txt, re.M)
+        d = re.search(r"^differential: features \{(.*?)\} vs \{(.*?)\}; operations: (.*)$", txt, re.M)
+        if d:
+            fa = tuple(x for x in d.group(1).split(",") if x)
+            fb = tuple(x for x in d.group(2).split(",") if x)
+            ta = P.digest(fa, transcript_ops=d.group(3))
+            tb = P.digest(fb, transcript_ops=d.group(3))
+            print("features {%s}:\n%s\nfeatures {%s}:\n%s" % (",".join(fa), "\n".join(ta), ",".join(fb), "\n".join(tb)))
+            print("DIFFERENT" if ta != tb else "identical")
+            return 1 if ta != tb else 0
         if not m:
             print(txt)
             print("(this replay file carries the verifier's output only: no failing input was found)")
